@@ -121,6 +121,10 @@ fn receivers() -> (Vec<Recv>, Vec<Recv>) {
         let only: Vec<&'static str> = if fl.starts_with("gen") { vec!["generics"] } else { vec!["data"] };
         dis.push(Recv { name: format!("DY{i}"), tr8: "FromDeriveInput", magic: only, flavor: fl, run_ty: format!("DY{i}") });
     }
+    // the whole receiver inside the library's wrappers: the item's own range / the item itself
+    dis.push(Recv { name: "DS0".into(), tr8: "FromDeriveInput", magic: all.to_vec(), flavor: "spanned", run_ty: "darling::util::SpannedValue<DS0>".into() });
+    dis.push(Recv { name: "DS1".into(), tr8: "FromDeriveInput", magic: vec![], flavor: "spanned", run_ty: "darling::util::SpannedValue<DS1>".into() });
+    dis.push(Recv { name: "DO0".into(), tr8: "FromDeriveInput", magic: vec!["ident", "generics"], flavor: "original", run_ty: "darling::util::WithOriginal<DO0, syn::DeriveInput>".into() });
     (elems, dis)
 }
 
